@@ -69,8 +69,18 @@ def roundtrip(ctx, real, rec, data, sid, now_ns, mode, use_async, cases):
         ctx.violation("protect fails for a supported configuration", {"hash": rec.hash_name, "alg": rec.secret_algorithm, "mode": mode, "sid": sid, "len": len(data), "time_ns": now_ns}, out, "a blob")
         return
     blob = bytes.fromhex(out[5:])
-    for layout in ("in-envelope", "trailing"):
-        wire = blob if layout == "in-envelope" else relayout(blob)
+    for layout in ("in-envelope", "trailing", "trailing-by-library"):
+        if layout == "trailing-by-library":
+            # the trailing layout as the library itself writes it (DPAPINGBlob.pack(blob_in_envelope=False)); if that packer
+            # refuses the value it is no concern of C01, but bytes it does emit must decrypt
+            try:
+                from dpapi_ng._blob import DPAPINGBlob
+                wire = DPAPINGBlob.unpack(blob).pack(blob_in_envelope=False)
+            except Exception:  # noqa
+                ctx.count("trailing-by-library:not-emitted")
+                continue
+        else:
+            wire = blob if layout == "in-envelope" else relayout(blob)
         # the receiver: a seed holder (fresh cache with the root key, or a DC that hands out seed keys)
         dc2 = refdc.KeyServer(now=now, **kw)
         dc2.add_root(rec)
